@@ -866,6 +866,7 @@ func run(c *hx.Ctx) {
 	res := c.Res
 	res.Shard = 60
 	res.Rule = "real syncers over loopback (own 127.x.y.z per node): fork-tree branches assigned to 2..5 nodes x every connected topology on <= 4 nodes x connection orders/directions x MaxSendBlocks {1,3,100} x inbound limits x checkpoint-bootstrapped nodes; exact stream (one tip sufficiently heavier than all others) and finding stream (near-ties); directed single pulls for the pull model; non-trivial := at least one node had to reorg away from a fork (not a plain extension)"
+	tieHistoryToSource(c) // gotr_tie.go: histHeight regenerated from chain/manager.go and compared with Net/Converge.v (one extra cases file)
 	var mu sync.Mutex
 	var cases []string
 	handle := func(s Scen, r result) {
